@@ -113,6 +113,7 @@ func VerifC16Mkdir() {
 	target := c.String("target-dir")
 	exts := c.StringSlice("extension")
 	massive := c.Bool("massive")
+	verifAssume(!massive) // the mkdir sub-command defines no --massive flag: the getter can only answer false
 	dry := c.Bool("dry-run")
 	verifContext("C16.mkdir")
 	err := actionMkdir(c)
@@ -188,6 +189,7 @@ func VerifC16Code() {
 	case 0:
 		err = actionOutput(c)
 	case 1:
+		verifAssume(!c.Bool("massive")) // no such flag on mkdir
 		err = actionMkdir(c)
 	case 2:
 		err = actionVerify(c)
